@@ -68,7 +68,7 @@ var checks = []Check{
 		Assumptions: append([]string{"vnet models orderly close, half-close and reset; kernel behaviours such as RST on close with unread data or partial writes are outside the model"}, engineAssumptions...),
 		Jobs: []Job{
 			{Pkg: "proc/tcp", Scenarios: []string{"C05/relay"}, Shards: 16, QuickS: 90, ThoroughS: 900},
-			{Pkg: "proc/tcp", Scenarios: []string{"C05/two-connections"}, Shards: 8, QuickS: 60, ThoroughS: 300},
+			{Pkg: "proc/tcp", Scenarios: []string{"C05/two-connections", "C05/paced"}, Shards: 8, QuickS: 60, ThoroughS: 300},
 		},
 	},
 	{
